@@ -130,6 +130,8 @@ type c17Span struct{ start, end int }
 
 func c17Program(r *rand.Rand) (text string, fault c17Fault, wrappers []string, mode string, container c17Span, faultLine int, callSpan c17Span, callLine int) {
 	b := &c17Src{r: r, line: 1}
+	// leading blank lines and comment lines before the first token
+	b.w(gen.Pick(r, []string{"", "", "\n", "\n\n\n", ";; header comment\n", "\n;; header (\n\n", "  \n\t\n"}))
 	b.w("(do\n")
 	nBefore, nAfter := r.Intn(4), r.Intn(3)
 	gi := 0
@@ -152,6 +154,19 @@ func c17Program(r *rand.Rand) (text string, fault c17Fault, wrappers []string, m
 		correct()
 	}
 	fault = gen.Pick(r, c17Faults)
+	if (fault.kind == "undefined-symbol" || fault.kind == "undefined-function") && r.Intn(2) == 0 {
+		// the undefined name is mentioned earlier in the text (as quoted data, as a local name, in a branch not taken):
+		// the error must still point at the occurrence that is evaluated
+		nm := fault.toks[fault.at]
+		b.w("  ")
+		b.toks(gen.Pick(r, [][]string{
+			{"(", "def", "earlier-mention", "(", "quote", "(", nm, "1", nm, ")", ")", ")"},
+			{"(", "let", "(", nm, "1", ")", "(", "trace!", nm, ")", ")"},
+			{"(", "if", "true", ":taken", "(", nm, ")", ")"},
+			{"(", "def", "earlier-fn", "(", "fn", "(", nm, ")", nm, ")", ")"},
+		}), nil)
+		b.w("\n")
+	}
 	// wrap the fault
 	depth := r.Intn(6)
 	inner := []string{"FAULT"}
